@@ -87,6 +87,9 @@ def main(chk):
     for u in ru[:40 if quick else 400]:
         v = dict(u)
         drop = sorted(u['rules'])[0]
+        used = referenced(u['term'])
+        if not any(drop in [c['n'] for c in d.get('comps', [])] for n, d in u['env'].items() if n in used):
+            continue          # the statement reads no dataset carrying that attribute: no rule is needed
         rest = {k: x for k, x in u['rules'].items() if k != drop}
         text = '\n'.join(viral.rule_text('VP_%d' % (k + 1), vv, rest[vv]) for k, vv in enumerate(sorted(rest)))
         v.update({'id': u['id'] + '.norule', 'script': (text + '\n' if text else '') + render.statement('R', u['term']), 'dropped': drop})
@@ -110,6 +113,20 @@ def main(chk):
                         'enumerated rules per datapoint and aggregate rules over the whole operand for row-preserving operators; min / max skip nulls in pairs, sum / avg do not',
                         'an enumerated rule folded over a group of more than two values may depend on the order of the fold; where it does (or the group has more than 5 datapoints) the value is '
                         'not judged, only its independence of the input order; analytic functions, hierarchies and validations with viral attributes are not modelled']
+
+
+def referenced(t):
+    """names of the variables a term reads"""
+    out = set()
+    if isinstance(t, dict):
+        if t.get('k') == 'var':
+            out.add(t['name'])
+        for v in t.values():
+            out |= referenced(v)
+    elif isinstance(t, list):
+        for v in t:
+            out |= referenced(v)
+    return out
 
 
 def canon(o):
